@@ -207,7 +207,7 @@ Proof.
     rewrite (keyed_no_loop_frame _ _ _ _ _ _ _ e E0). reflexivity.
   - inv_bind H as [[[[x is_new] sk] q'] ds']. inversion H; subst.
     rewrite (single_frame _ _ _ _ _ _ _ _ _ e E). reflexivity.
-  - destruct (decide_pass q) as [[x|] q']; inversion H; subst; reflexivity.
+  - destruct (decide_pass q) as [[x|] q']; [|destruct last]; inversion H; subst; reflexivity.
   - unfold decide_ksingle in *. inv_bind H as [[[[rel q'] last'] ds'] nt']. inversion H; subst.
     rewrite (ksingle_loop_frame _ _ _ _ _ _ _ _ _ _ _ e E). reflexivity.
 Qed.
